@@ -1,5 +1,6 @@
 """C07 — no peer input can panic, wedge or silently kill a task (structural clauses: panic-site inventory with
 discharges, loop discipline, closed-channel exits, unsafe, quiet logging paths)."""
+import re
 from core import rule, loc_of
 from facts import AnchorLost, norm
 import q, effects, panics
@@ -56,6 +57,21 @@ def r1(c):
     c.control('unwrap is inventoried', len(unw) >= 1)
 
 
+def gone_entries(P):
+    """table entries of known functions that are no longer in the program: {(function, 'kind | sig'): entry}"""
+    if '_gone_entries' not in P.__dict__:
+        import inline
+        known = inline.load_known() or set()
+        out = {}
+        for key, ent in TABLE.items():
+            fn, rest = key.split(' | ', 1)
+            base = re.sub(r'(::\{closure#\d+\})+$', '', fn)
+            if base in known and P.get(base) is None:
+                out[(base, rest)] = ent
+        P.__dict__['_gone_entries'] = out
+    return P.__dict__['_gone_entries']
+
+
 def inventory(c, only=None, floor=100):
     """the panic-site inventory, over all of rodbus or over the functions accepted by `only` (a predicate on the function path)"""
     P = c.P
@@ -73,6 +89,13 @@ def inventory(c, only=None, floor=100):
                 c.ob('auto/%s' % s.key, True, 'site cannot panic', why, s.loc())
             continue
         ent = TABLE.get(s.key)
+        if not ent:
+            # the recorded site may have moved with its code: a known function of the same impl / module that no longer
+            # exists (inlined by hand into its caller) had a table entry for exactly this operation
+            for (gfn, rest), e_ in gone_entries(P).items():
+                if rest == s.key.split(' | ', 1)[1] and gfn.rsplit('::', 1)[0] == re.sub(r'(::\{closure#\d+\})+$', '', s.fn).rsplit('::', 1)[0]:
+                    ent = e_
+                    break
         if ent:
             g = guard_for(s)
             if g is not None:
@@ -252,7 +275,8 @@ def r4(c):
     c.ob('wrapper/channel::Receiver::recv', ok, 'channel::Receiver::recv maps a closed mpsc (None) to Err(Shutdown)', '', loc_of(r))
     f = P.fn('rodbus::client::task::ClientLoop::fail_next_request')
     rc = one(f.calls('rodbus::channel::Receiver::recv'), 'recv in fail_next_request')
-    c.ob('wrapper/fail_next_request', bool(q.outcomes(f, rc).get('Break')), 'fail_next_request propagates a closed channel with `?` (StateChange::Shutdown via From<Shutdown>)', '', rc.loc())
+    okf, how, why = q.failure_leaves(f, rc)
+    c.ob('wrapper/fail_next_request', okf, 'fail_next_request propagates a closed channel as an error (StateChange::Shutdown)', '%s: %s' % (how, why), rc.loc())
     fr = P.find_impl('core::convert::From', 'rodbus::client::task::StateChange', 'from', 'rodbus::error::Shutdown')
     xs = q.exits(fr)
     c.ob('wrapper/From<Shutdown>', len(xs) == 1 and xs[0]['kind'] == 'agg' and xs[0]['variant'] == 'Shutdown', 'From<Shutdown> for StateChange yields StateChange::Shutdown', '', loc_of(fr))
@@ -311,3 +335,21 @@ def r7(c):
     from rules import c12
     c12.r1(c)
     c12.r2(c)
+
+
+@rule('C07', 'R07.8', 'fair races: every tokio::select! that races the command / shutdown channel with peer I/O starts polling at a random branch (not `biased;`), so a peer that keeps data flowing cannot starve commands')
+def r8(c):
+    P = c.P
+    n = 0
+    for b in P.all_bodies(crate='rodbus'):
+        if b.kind in ('Static', 'Const') or b.is_promoted:
+            continue
+        for s in q.select_sites(b):
+            n += 1
+            cl = q.sem(b, s['poll_fn'].args[0])
+            cb = P.get(norm(cl.extra['closure'])) if cl.kind == 'agg' and isinstance(cl.extra, dict) and 'closure' in cl.extra else None
+            rng = [cs for cs in cb.calls() if (cs.callee or '').endswith('::thread_rng_n')] if cb is not None else []
+            c.ob('select/%s' % P.logical_name(b).rsplit('::', 2)[-2] + '::' + P.logical_name(b).rsplit('::', 1)[-1], len(rng) == 1,
+                 'the select! draws its starting branch with thread_rng_n (a `biased;` select polls the first branch first every time: a branch that is always ready starves the others)',
+                 '%d branches, random start: %s' % (len(s['futures']), bool(rng)), s['poll_fn'].loc())
+    c.floor('select! sites', n, 6)
